@@ -403,12 +403,12 @@ class CGWorld(World):
             ek = krylov.anorm(Ad, xk - xstar)
             dist = krylov.anorm(Ad, xk - kopt[kk])
             st["maxdist_ref"] = max(st["maxdist_ref"], dist_ref[kk])
-            tolk = fl["k_rel"] * e0 + fl["k_abs"] * nx + 1e3 * st["maxdist_ref"] + 1e-300
+            tolk = fl["k_rel"] * e0 + fl["k_abs"] * nx + 1e5 * st["maxdist_ref"] + 1e-300
             res.note_max("krylov_dist_over_tol." + prec, dist / tolk)
             if dist > tolk:
                 raise Violation("krylov_optimality", "ConjugateGradient.update", step,
                                 {"k": kk, "dist": dist, "tol": tolk, "e0": e0, "dist_ref": dist_ref[kk], "cond": cond})
-            tolm = fl["mono_rel"] * e0 + fl["mono_abs"] * nx + 1e3 * st["maxdist_ref"] + 1e-300
+            tolm = fl["mono_rel"] * e0 + fl["mono_abs"] * nx + 1e5 * st["maxdist_ref"] + 1e-300
             res.note_max("mono_increase_over_tol." + prec, (ek - st["e_prev"]) / tolm)
             if ek > st["e_prev"] + tolm:
                 raise Violation("anorm_error_increased", "ConjugateGradient.update", step,
